@@ -133,6 +133,13 @@ func runCheck(repo, verif, prop, tier string, workers int, noReplay bool) int {
 			cfg.SolverTimeoutMs = 30000
 			cfg.MaxWall = 90 * time.Minute
 		}
+		if v := os.Getenv("SYMGO_MAXWALL_S"); v != "" {
+			var n int
+			fmt.Sscan(v, &n)
+			if n > 0 {
+				cfg.MaxWall = time.Duration(n) * time.Second
+			}
+		}
 		if r.SolverMs > 0 {
 			cfg.SolverTimeoutMs = r.SolverMs
 		}
